@@ -79,4 +79,13 @@ def AVal.Valid : AVal → Prop
   | .arr _ first rest => first.Valid ∧ ∀ e ∈ rest, e.Valid
   | .empty _ => True
 
+/-- the form a tape gives rise to: arrays and empty containers written with `write_array_start`
+(what `write_tape` does for an `Array` token), no explicit `=` operator -/
+def AVal.Canon : AVal → Prop
+  | .scal _ => True
+  | .arr unknown _ _ => unknown = false
+  | .empty fl => fl = .arrayStart
+
+def AField.Canon (x : AField) : Prop := x.op ≠ some .eq ∧ x.val.Canon
+
 end Jomini.Writer.Spec
